@@ -17,7 +17,8 @@ class FnContract:
     def __init__(self, cset, key, file=None, qualname=None, params=None, requires=(), ensures=(), raises=None,
                  ensures_exc=(), modifies=(), loops=None, external=False, model=None, inline=False, result=None,
                  is_property=False, setter=False, note=None, lets=None, await_havoc=None, trusted_reason=None,
-                 pure=False, emits=None, opaque_calls=(), findings=(), no_inv=False, defs=(), bounded=None, replay_seeds=None):
+                 pure=False, emits=None, opaque_calls=(), findings=(), no_inv=False, defs=(), bounded=None, replay_seeds=None, call_ensures=None,
+                 call_modifies=None):
         self.cset = cset
         self.key = key
         self.file = file
@@ -44,6 +45,9 @@ class FnContract:
         self.opaque_calls = list(opaque_calls)
         self.defs = list(defs)          # definitional unfoldings of spec functions (assumed, never proved)
         self.replay_seeds = dict(replay_seeds or {})   # param -> concrete values tried natively after the model
+        # weaker summary used at call sites instead of ensures/modifies (sound: callers learn less)
+        self.call_ensures = None if call_ensures is None else [_lab(c, "ensures", i) for i, c in enumerate(call_ensures)]
+        self.call_modifies = call_modifies
         self.bounded = bounded          # text of the bound if this function is only checked up to a bound
         self.no_inv = no_inv            # helper that neither assumes nor re-establishes the class invariants
         self._extracted = None
